@@ -20,26 +20,26 @@ let () = iter_lines (fun line ->
   | ["MB"; id; nb; h1; h2; data] ->
     let nb = int_of_string nb and data = bytes_of_hex data in
     let h = [n_of_hex h1; n_of_hex h2] in
-    let c = c_murmur3_block (fuel (60 * nb + 100)) (le_words (nat_of_int 8) data) (n_of_int nb) h in
+    let c = c_murmur3_block (fuel (400 * nb + 2000)) (le_words (nat_of_int 8) data) (n_of_int nb) h in
     let (a, b) = List.fold_left mur_body (n_of_hex h1, n_of_hex h2) (chunks (nat_of_int 16) data) in
     Printf.printf "%s c=%s s=%s\n" id (opt_hex 16 c) (words_hex 16 [a; b])
   | ["MT"; id; tl; h1; h2; tail] ->
     let tail = bytes_of_hex tail in
-    let c = c_murmur3_tail (fuel 400) tail (n_of_hex tl) [n_of_hex h1; n_of_hex h2] junk in
+    let c = c_murmur3_tail (fuel 20000) tail (n_of_hex tl) [n_of_hex h1; n_of_hex h2] junk in
     let (a, b) = mur_tail (n_of_hex h1, n_of_hex h2) tail (n_of_hex tl) in
     Printf.printf "%s c=%s s=%s\n" id (opt_hex 16 c) (words_hex 16 [a; b])
   | ["MW"; id; seed; msg] ->
     let msg = bytes_of_hex msg in
-    let c = c_murmur3_x64_128 (fuel (4 * List.length msg + 500)) (n_of_hex seed) msg junk in
+    let c = c_murmur3_x64_128 (fuel (40 * List.length msg + 20000)) (n_of_hex seed) msg junk in
     let (a, b) = murmur3_x64_128 (n_of_hex seed) msg in
     Printf.printf "%s c=%s s=%s\n" id (opt_hex 16 c) (words_hex 16 [a; b])
   | ["H"; id; alg; dg; blk] ->
     let blk = bytes_of_hex blk in
     let (d, c, s) = match alg with
-      | "sha256" -> let h = words_of_hex 8 dg in (8, c_sha256_single (fuel 3000) (le_words (nat_of_int 4) blk) h junk, sha256_compress h blk)
-      | "sha1" -> let h = words_of_hex 8 dg in (8, c_sha1_single (fuel 3000) (le_words (nat_of_int 4) blk) h junk, sha1_compress h blk)
-      | "md5" -> let h = words_of_hex 8 dg in (8, c_md5_single (fuel 3000) (le_words (nat_of_int 4) blk) h, md5_compress h blk)
-      | "sha512" -> let h = words_of_hex 16 dg in (16, c_sha512_single (fuel 4000) (le_words (nat_of_int 8) blk) h junk, sha512_compress h blk)
+      | "sha256" -> let h = words_of_hex 8 dg in (8, c_sha256_single (fuel 100000) (le_words (nat_of_int 4) blk) h junk, sha256_compress h blk)
+      | "sha1" -> let h = words_of_hex 8 dg in (8, c_sha1_single (fuel 100000) (le_words (nat_of_int 4) blk) h junk, sha1_compress h blk)
+      | "md5" -> let h = words_of_hex 8 dg in (8, c_md5_single (fuel 100000) (le_words (nat_of_int 4) blk) h, md5_compress h blk)
+      | "sha512" -> let h = words_of_hex 16 dg in (16, c_sha512_single (fuel 100000) (le_words (nat_of_int 8) blk) h junk, sha512_compress h blk)
       | _ -> failwith "alg" in
     Printf.printf "%s c=%s s=%s\n" id (opt_hex d c) (words_hex d s)
   | [] -> ()
